@@ -582,6 +582,14 @@ def check(run):
         if nparents(st) >= 2 and len(shared) < (1500 if thorough else 250):
             shared.append(dict(st, id=500000 + len(shared), parents="shared-data"))
     run.cov["shared_data_parent_waker_runs"] = len(shared)
+    # the same runs (those with remote waker operations) under task wakers of an executor that holds a per-task lock while it
+    # polls and takes it in wake(): the deque must not call wake() while holding a lock its own poll needs
+    nlock = 0
+    for st in stims + rstims:
+        if any(st.get("rops", [[], []])) and nlock < (1200 if thorough else 250):
+            shared.append(dict(st, id=600000 + nlock, exec_lock=True))
+            nlock += 1
+    run.cov["executor_lock_parent_waker_runs"] = nlock
     sums = judge(run, wd, "runs", stims + rstims + shared, acc, tables, extra=lambda t, u: wmm(run, wd, t, u, thorough)) or []
     # many futures activated at the same poll (beyond the explorer's bound; judged with MaxF = 48): every one of them is polled again
     big = []
